@@ -54,7 +54,7 @@ def attribute(case, failure, findings):
         if not all(_match_value(v, case.get(k)) for k, v in sel.items()):
             continue
         kinds = f.get("failure_kinds")
-        if kinds is not None and failure["kind"] not in kinds:
+        if kinds is not None and not any((k.endswith("*") and failure["kind"].startswith(k[:-1])) or failure["kind"] == k for k in kinds):
             continue
         ids = f.get("case_ids")
         if ids is not None and case["id"] not in ids:
